@@ -63,4 +63,14 @@ func typedExt[T any](e *Entry) {
 	e.NewTypedBuffer = func(opts ...parquet.RowGroupOption) StatefulBuffer {
 		return c17TypedBuffer[T]{parquet.NewGenericBuffer[T](opts...)}
 	}
+	e.NewRowBufferOf = func(rows any, opts ...parquet.RowGroupOption) (rg parquet.RowGroup, err error) {
+		defer catch(&err)
+		rb := parquet.NewRowBuffer[T](opts...)
+		if rs := rows.([]T); len(rs) > 0 {
+			if _, err := rb.Write(rs); err != nil {
+				return nil, err
+			}
+		}
+		return rb, nil
+	}
 }
